@@ -43,8 +43,13 @@ def render(version, check_delay, part=None):
     circus = {'check_delay': check_delay}
     if part == 'main':
         circus['include'] = '@SCRATCH@/inc.ini'
-    return ini.render(circus=circus, watchers=ws,
-                      env=version.get('env'), env_sections=envs)
+    txt = ini.render(circus=circus, watchers=ws,
+                     env=version.get('env'), env_sections=envs)
+    if version.get('plugin'):
+        # a plugin runs as one more watcher ("plugin:NAME")
+        txt += '\n[plugin:flap]\nuse = circus.plugins.flapping.Flapping\n' \
+               'attempts = %d\n' % version['plugin']['attempts']
+    return txt
 
 
 def section_key(w, version):
@@ -265,7 +270,7 @@ class C12(Prop):
             'defaults (max_age) and remove it again, revert to an earlier '
             'value, no-op rewrite; in a fifth of the cases part of the '
             'sections lives in an included file and sections move between '
-            'the two files; each followed by a waiting reloadconfig. '
+            'the two files; a plugin section in 15 %; each followed by a waiting reloadconfig. '
             'after every reload, at quiescence, the daemon is compared with '
             'a fresh daemon started on the same file in a second simulator '
             'universe (watcher set, options replies, status, live workers, '
@@ -299,6 +304,8 @@ class C12(Prop):
                 w0['opts']['stdout_stream.class'] = 'FileStream'
                 w0['opts']['stdout_stream.filename'] = \
                     '@SCRATCH@/%s-out.log' % w0['name']
+        if rng.random() < 0.15:
+            v['plugin'] = {'attempts': 3}
         with_inc = rng.random() < 0.2
         if with_inc:
             # part of the configuration lives in an included file
@@ -318,6 +325,8 @@ class C12(Prop):
                           'drop_option', 'stream']
             if with_inc and ws:
                 kinds += ['move', 'move']
+            if versions[0].get('plugin'):
+                kinds += ['plugin']
             kind = rng.choice(kinds)
             if kind == 'move':
                 # a section moves between the main and the included file:
@@ -329,6 +338,9 @@ class C12(Prop):
                 else:
                     inc.append(w['name'])
                 v['inc'] = inc
+            if kind == 'plugin':
+                v['plugin'] = rng.choice([None, {'attempts': 3},
+                                          {'attempts': 5}])
             if kind == 'add':
                 free = [x for x in NAMES if x.lower() not in
                         [y['name'].lower() for y in ws]]
@@ -409,7 +421,8 @@ class C12(Prop):
                 v = copy.deepcopy(rng.choice(history))
             if json.dumps(v.get('watchers'), sort_keys=True) == \
                     json.dumps(versions[-1].get('watchers'), sort_keys=True) \
-                    and v.get('env') == versions[-1].get('env'):
+                    and v.get('env') == versions[-1].get('env') \
+                    and v.get('plugin') == versions[-1].get('plugin'):
                 kind = 'move' if kind == 'move' else 'noop'
             v['edit'] = kind
             versions.append(v)
